@@ -98,9 +98,11 @@ ExpEnv == (IF X.envb = 0 THEN X.penv ELSE <<>>) \o (IF X.envx = <<"none">> THEN 
 ENAMETOOLONG == -36
 EMFILE == -24
 
-LowHandle(pt) == \E s \in 1..3 : (pt.rd[s].h \in {1, 2}) \/ (pt.rd[s].f \in {1, 2})
-Init == /\ phase = "pick" /\ o \in Points /\ k \in {[std |-> s, hasInput |-> FALSE] : s \in StdSets}
-        /\ LowHandle(o) => k.std = <<TRUE, TRUE, TRUE>>
+Init == phase = "pick" /\ o \in Points /\ k \in {[std |-> s, hasInput |-> FALSE] : s \in StdSets}
+\* a user handle / FILE that names one of the parent's descriptors 1, 2 while that descriptor is closed: an unusable target
+DeadTarget(eff) == \E s \in 1..3 : (eff[s].t = T_HANDLE /\ eff[s].h \in {1, 2} /\ ~k.std[eff[s].h + 1])
+                                     \/ (eff[s].t = T_FILE /\ eff[s].f \in {1, 2} /\ ~k.std[eff[s].f + 1])
+EBADF == -9
 
 RJ(r) == <<r.t, r.h, r.f, r.p>>
 CfgRec == [e |-> "cfg", cap |-> 8, limit |-> IF Family \in {"env", "faultscen"} THEN X.limit ELSE 32, fds |-> [s \in 1..3 |-> IF k.std[s] THEN 1 ELSE 0], extra |-> Extras]
@@ -125,6 +127,7 @@ Expected ==
        [] v.v = "late" -> common @@ [r |-> EINVAL, nfd |-> BaseFds, left |-> 0]
        [] v.v = "unspecified" -> [e |-> "ret", mon |-> <<>>]
        [] v.v = "accept" /\ o.fork -> [e |-> "ret", mon |-> <<>>, r |-> 1]
+       [] v.v = "accept" /\ DeadTarget(v.eff) -> common @@ [r |-> EBADF, nfd |-> BaseFds, left |-> 0]
        [] Family = "env" /\ X.limit = -1 ->
             \* an unlimited descriptor table cannot be swept by the child: the documented refusal is "too many open files"
             common @@ [r |-> EMFILE, nfd |-> BaseFds, left |-> 0, pmask |-> X.mask, pdisp |-> X.disp]
